@@ -39,7 +39,8 @@ func scale(w map[string]float64, ks []string, f float64) {
 
 func (p *Profile) feeRateValues() []string {
 	return []string{"", "0", "0.0", "0.000001", "0.01", "0.05", "0.5", "1", "1.5", "2", "0.123456789012345678", "0.3333333333",
-		"0.333333333333333333333333333333", "0.000000000000000000000000000001", "0.99999999999999999999"}
+		"0.333333333333333333333333333333", "0.000000000000000000000000000001", "0.99999999999999999999",
+		"0.3333333333333333333333333333333333", "0.09999999999999999999999999999999999999", "0.6666666666666666666666666666666666667"}
 }
 
 // DrawProfile draws the swarm configuration of one run.
